@@ -31,6 +31,7 @@ import (
 	"time"
 
 	ecommon "github.com/ChainSafe/sygma-relayer/tss/ecdsa/common"
+	tssutil "github.com/ChainSafe/sygma-relayer/tss/util"
 	eresharing "github.com/ChainSafe/sygma-relayer/tss/ecdsa/resharing"
 	esigning "github.com/ChainSafe/sygma-relayer/tss/ecdsa/signing"
 	fsigning "github.com/ChainSafe/sygma-relayer/tss/frost/signing"
@@ -49,6 +50,12 @@ import (
 type Reshare struct {
 	Members []int `json:"members"` // indexes into the peer universe (0..3 = the repo's fixture peers)
 	T       int   `json:"t"`
+	// Abandon (abandon.go): the processes of this refresh (Op keygen: of a key generation) are
+	// constructed on the members' long-lived stores and then given up - stop (Stop without Run) | cancel
+	// (Run with a context that is already cancelled, then Stop) | badparams (Run with rejected start
+	// parameters, then Stop); committee and threshold stay what they were
+	Abandon string `json:"abandon,omitempty"`
+	Op      string `json:"op,omitempty"`
 }
 
 // Mode: how one signing session hands its result over / whether its first attempt fails (session.go)
@@ -90,6 +97,11 @@ type Case struct {
 	MaxSubsets int    `json:"max_subsets,omitempty"` // 0 = every threshold+1 subset signs
 	// non-empty: the k-th signing subset of a stage uses Modes[k mod len] instead of the four fields above
 	Modes []Mode `json:"modes,omitempty"`
+	// Leaver: relayers that LEFT the committee in a refresh stay online with their old share: after the
+	// regular signing sessions of a stage, (up to two of) the subsets sign once more in sessions in which
+	// every ex-member answers "ready" before the other signers do and runs with the start parameters
+	// the coordinator computes (session.go: attempt.arrivals)
+	Leaver bool `json:"leaver,omitempty"`
 	// release: capacity of the result channel and whether its reader is late
 	Cap  int  `json:"cap,omitempty"`
 	Late bool `json:"late,omitempty"`
@@ -317,6 +329,10 @@ func sharesStage(w *world, proto string, u []peer.ID, members []int, t int, oldP
 				st.Note += fmt.Sprintf("member %d stores threshold %d; ", m, k.Threshold)
 				same = false
 			}
+			if bad := w.ecdsaView(p, k); bad != "" {
+				st.Note += fmt.Sprintf("member %d: %s; ", m, bad)
+				same = false
+			}
 		} else {
 			k, err := w.frostKey(p)
 			if err != nil {
@@ -330,6 +346,10 @@ func sharesStage(w *world, proto string, u []peer.ID, members []int, t int, oldP
 			pk = append([]byte(nil), k.Key.PublicKey...)
 			if k.Threshold != t || k.Key.Threshold != t {
 				st.Note += fmt.Sprintf("member %d stores threshold %d/%d; ", m, k.Threshold, k.Key.Threshold)
+				same = false
+			}
+			if bad := w.frostView(p, k); bad != "" {
+				st.Note += fmt.Sprintf("member %d: %s; ", m, bad)
 				same = false
 			}
 		}
@@ -406,13 +426,17 @@ func signPlan(proto string, stage int, subset []int, seed uint64, pub []byte, o 
 // readers and first-attempt failure that `o` asks for (session.go).  Released / Valid are reported for
 // the relayers selected in the LAST attempt (the holders that completed the session), in order;
 // Coord is the position of that attempt's coordinator among them.
-func signStage(w *world, proto string, u []peer.ID, committee, subset []int, coord int, must bool, stage int, seed uint64, pub []byte, o signOpts) Stage {
+// ex (non-empty: a "leaver" session): relayers that left the committee, still online with their old share.
+func signStage(w *world, proto string, u []peer.ID, committee, subset []int, coord int, must bool, stage int, seed uint64, pub []byte, o signOpts, ex []int) Stage {
 	st := Stage{Must: must, Subset: subset, Coord: coord}
 	o = normOpts(proto, o)
 	sid, digests, tweakHex, tweaked, perr := signPlan(proto, stage, subset, seed, pub, o)
 	if perr != nil {
 		st.Note = perr.Error()
 		return st
+	}
+	if len(ex) > 0 {
+		sid = leaverSid(sid, pick(u, subset), pick(u, ex))
 	}
 	// the relayers: the signers and, for a retry with a changed subset, one more committee member
 	idx := append([]int(nil), subset...)
@@ -441,6 +465,10 @@ func signStage(w *world, proto string, u []peer.ID, committee, subset []int, coo
 			idx = append(idx, extra)
 		}
 	}
+	if len(ex) > 0 {
+		retry = ""
+		idx = append(idx, ex...)
+	}
 	members, sids, err := w.signMembers(proto, sid, pick(u, committee), pick(u, idx), digests, tweakHex)
 	if err != nil {
 		st.Note += "could not create the signing processes: " + err.Error()
@@ -452,6 +480,19 @@ func signStage(w *world, proto string, u []peer.ID, committee, subset []int, coo
 		all[i] = i
 	}
 	plan := []attempt{{coord: coord, ready: all}}
+	if len(ex) > 0 {
+		// the ex-members' ready messages reach the coordinator first, then the other signers'
+		var arrivals []int
+		for i := range ex {
+			arrivals = append(arrivals, n+i)
+		}
+		for i := 0; i < n; i++ {
+			if i != coord {
+				arrivals = append(arrivals, i)
+			}
+		}
+		plan = []attempt{{coord: coord, arrivals: arrivals}}
+	}
 	switch retry {
 	case "commerr":
 		// Coordinator.retry: a new (bully) election, then the same processes run again
@@ -610,9 +651,11 @@ func runScenario(c Case) Obs {
 		signAt[s] = true
 	}
 	var prevPts []Share
+	var ex []int // relayers that left the committee (they keep their old share files)
+	abandoned := false
 	for stage := 0; ; stage++ {
 		var oldPts []Share
-		if stage > 0 && c.Proto == "frost" {
+		if stage > 0 && c.Proto == "frost" && !abandoned {
 			oldPts = prevPts
 		}
 		st, pub := sharesStage(w, c.Proto, u, committee, t, oldPts)
@@ -628,11 +671,28 @@ func runScenario(c Case) Obs {
 					defer wg.Done()
 					coord := int((c.Seed + uint64(k) + uint64(stage)) % uint64(len(sub)))
 					o := optsFor(c, k)
-					res[k] = signStage(w, c.Proto, u, committee, sub, coord, stage > 0, stage, c.Seed, pub, o)
+					res[k] = signStage(w, c.Proto, u, committee, sub, coord, stage > 0, stage, c.Seed, pub, o, nil)
 				}(k, sub)
 			}
 			wg.Wait()
 			o.Stages = append(o.Stages, res...)
+			if c.Leaver && len(ex) > 0 {
+				// the ex-members are still online and answer "ready" (at most two subsets)
+				if len(subs) > 2 {
+					subs = subs[:2]
+				}
+				res := make([]Stage, len(subs))
+				for k, sub := range subs {
+					wg.Add(1)
+					go func(k int, sub []int) {
+						defer wg.Done()
+						coord := int((c.Seed + uint64(k) + uint64(stage) + 1) % uint64(len(sub)))
+						res[k] = signStage(w, c.Proto, u, committee, sub, coord, true, stage, c.Seed+77, pub, signOpts{}, ex)
+					}(k, sub)
+				}
+				wg.Wait()
+				o.Stages = append(o.Stages, res...)
+			}
 		}
 		if stage >= len(c.Reshares) {
 			break
@@ -642,6 +702,14 @@ func runScenario(c Case) Obs {
 		var err error
 		sid := fmt.Sprintf("reshare-%d", stage)
 		w.ov = nil
+		abandoned = rs.Abandon != ""
+		if abandoned {
+			// constructed on the relayers' stores and given up: committee, threshold and key stay
+			if note := w.abandon(c.Proto, sid, pick(u, rs.Members), rs.T, rs.Op, rs.Abandon); note != "" {
+				return fail(false, note)
+			}
+			continue
+		}
 		if c.Overlap && signAt[stage+1] {
 			planOverlap(w, c, u, committee, rs.Members, rs.T, stage, pub)
 		}
@@ -657,9 +725,48 @@ func runScenario(c Case) Obs {
 		if r.TimedOut || firstErr(r.Errs) != "" {
 			return fail(true, "reshare: "+firstErr(r.Errs))
 		}
+		for _, m := range committee {
+			in := false
+			for _, n := range rs.Members {
+				in = in || n == m
+			}
+			if !in {
+				ex = append(ex, m)
+			}
+		}
 		committee, t = append([]int(nil), rs.Members...), rs.T
+		// (a relayer that comes back is a member again)
+		var still []int
+		for _, m := range ex {
+			in := false
+			for _, n := range committee {
+				in = in || n == m
+			}
+			if !in {
+				still = append(still, m)
+			}
+		}
+		ex = still
 	}
 	return o
+}
+
+// leaverSid: a session id (the given one with a suffix) for which at least one ex-member sorts among
+// the first |subset| of the relayers that are ready - the order in which StartParams picks the signers.
+func leaverSid(sid string, subset, ex []peer.ID) string {
+	all := append(append([]peer.ID(nil), subset...), ex...)
+	for k := 0; k < 200; k++ {
+		cand := fmt.Sprintf("%s-lv%d", sid, k)
+		sorted := tssutil.SortPeersForSession(all, cand)
+		for i := 0; i < len(subset) && i < len(sorted); i++ {
+			for _, e := range ex {
+				if sorted[i].ID == e {
+					return cand
+				}
+			}
+		}
+	}
+	return sid + "-lv"
 }
 
 // scenario results are computed concurrently in the background as soon as the generator has
@@ -852,13 +959,21 @@ func gen(r *vgen.Rng, tier string) []Case {
 		// refresh of the unchanged committee; the three pairs: retried, late reader, retried with a changed subset
 		{Kind: "scenario", Proto: "frost", Start: "fixtures", Reshares: []Reshare{{Members: []int{0, 1, 2}, T: 1}}, SignAt: []int{1}, Seed: seed, Overlap: true,
 			Modes: []Mode{{Retry: "commerr"}, {Chan: "unbuf", Reader: "late"}, {Retry: "subset", Chan: "btc", Inputs: 2}}},
-		// a member leaves
-		{Kind: "scenario", Proto: "ecdsa", Start: "fixtures", Reshares: []Reshare{{Members: []int{0, 2}, T: 1}}, SignAt: []int{1}, Seed: seed, Overlap: true},
-		{Kind: "scenario", Proto: "frost", Start: "fixtures", Reshares: []Reshare{{Members: []int{0, 2}, T: 1}}, SignAt: []int{1}, Seed: seed, Overlap: true},
+		// a member leaves (Leaver: and stays online with its old share, answering "ready" first)
+		{Kind: "scenario", Proto: "ecdsa", Start: "fixtures", Reshares: []Reshare{{Members: []int{0, 2}, T: 1}}, SignAt: []int{1}, Seed: seed, Overlap: true, Leaver: true},
+		{Kind: "scenario", Proto: "frost", Start: "fixtures", Reshares: []Reshare{{Members: []int{0, 2}, T: 1}}, SignAt: []int{1}, Seed: seed, Overlap: true, Leaver: true},
 		// threshold raised (ECDSA: together with a join and a leave)
-		{Kind: "scenario", Proto: "ecdsa", Start: "fixtures", Reshares: []Reshare{{Members: []int{0, 1, 3, 4}, T: 2}}, SignAt: []int{1}, Seed: seed,
+		{Kind: "scenario", Proto: "ecdsa", Start: "fixtures", Reshares: []Reshare{{Members: []int{0, 1, 3, 4}, T: 2}}, SignAt: []int{1}, Seed: seed, Leaver: true,
 			Modes: []Mode{{}, {Chan: "unbuf", Reader: "late"}, {}, {Chan: "unbuf", Reader: "evm"}}},
 		{Kind: "scenario", Proto: "frost", Start: "fixtures", Reshares: []Reshare{{Members: []int{0, 1, 2}, T: 2}}, SignAt: []int{1}, Seed: seed, Overlap: true},
+		// abandoned sessions: a refresh with a changed threshold / committee or a key generation is
+		// constructed on the relayers' long-lived stores and given up (Stop without Run, Run with a context
+		// that is already cancelled, rejected start parameters); then every pair of the committee signs
+		{Kind: "scenario", Proto: "frost", Start: "fixtures", Reshares: []Reshare{{Members: []int{0, 1, 2}, T: 2, Abandon: "stop"}}, SignAt: []int{1}, Seed: seed},
+		{Kind: "scenario", Proto: "frost", Start: "fixtures", Reshares: []Reshare{{Members: []int{0, 1, 2, 3}, T: 1, Abandon: "cancel"},
+			{Members: []int{0, 1, 2}, T: 2, Op: "keygen", Abandon: "stop"}, {Members: []int{0, 1, 3}, T: 2, Abandon: "badparams"}}, SignAt: []int{3}, Seed: seed + 1},
+		{Kind: "scenario", Proto: "ecdsa", Start: "fixtures", Reshares: []Reshare{{Members: []int{0, 1, 3, 4}, T: 2, Abandon: "stop"},
+			{Members: []int{0, 1, 2}, T: 2, Op: "keygen", Abandon: "stop"}, {Members: []int{0, 1, 2}, T: 2, Abandon: "badparams"}}, SignAt: []int{3}, Seed: seed},
 	}
 	// how the signature is handed over (the executors' result channels and readers) and retried
 	// attempts on the same process objects (session.go); fixture shares, a rotating choice of subsets
@@ -905,6 +1020,15 @@ func gen(r *vgen.Rng, tier string) []Case {
 			Case{Kind: "scenario", Proto: "ecdsa", Start: "keygen", N: 3, T: 1, Reshares: []Reshare{{Members: []int{0, 1, 2}, T: 1}, {Members: []int{0, 1, 2, 3, 4}, T: 3}}, SignAt: []int{1, 2}, Seed: seed + 3, Overlap: true},
 			Case{Kind: "scenario", Proto: "frost", Start: "fixtures", Reshares: []Reshare{{Members: []int{1, 2, 3}, T: 1}}, SignAt: []int{1}, Seed: seed + 4},
 			Case{Kind: "scenario", Proto: "ecdsa", Start: "fixtures", Reshares: []Reshare{{Members: []int{1, 2, 3}, T: 1}}, SignAt: []int{1}, Seed: seed + 4, Overlap: true},
+		)
+		// abandoned sessions between real refreshes; ex-members online after two refreshes
+		scn = append(scn,
+			Case{Kind: "scenario", Proto: "frost", Start: "fixtures", Reshares: []Reshare{{Members: []int{0, 1, 2}, T: 2, Abandon: "cancel"}, {Members: []int{0, 1, 2}, T: 1}, {Members: []int{0, 2}, T: 2, Abandon: "stop"}}, SignAt: []int{1, 3}, Seed: seed + 20},
+			Case{Kind: "scenario", Proto: "ecdsa", Start: "fixtures", Reshares: []Reshare{{Members: []int{0, 1}, T: 1, Abandon: "stop"}, {Members: []int{0, 1, 2, 3}, T: 1}, {Members: []int{0, 1, 2, 3, 4}, T: 3, Abandon: "badparams"}}, SignAt: []int{1, 3}, Seed: seed + 20},
+			Case{Kind: "scenario", Proto: "frost", Start: "keygen", N: 3, T: 1, Reshares: []Reshare{{Members: []int{0, 1, 2}, T: 2, Abandon: "stop"}, {Members: []int{0, 1, 2}, T: 2, Op: "keygen", Abandon: "stop"}}, SignAt: []int{0, 2}, Seed: seed + 21},
+			Case{Kind: "scenario", Proto: "ecdsa", Start: "keygen", N: 3, T: 1, Reshares: []Reshare{{Members: []int{0, 1, 2, 3}, T: 2, Abandon: "stop"}}, SignAt: []int{1}, Seed: seed + 21},
+			Case{Kind: "scenario", Proto: "ecdsa", Start: "fixtures", Reshares: []Reshare{{Members: []int{0, 1, 3}, T: 1}, {Members: []int{0, 3}, T: 1}}, SignAt: []int{1, 2}, Seed: seed + 22, Leaver: true},
+			Case{Kind: "scenario", Proto: "frost", Start: "fixtures", Reshares: []Reshare{{Members: []int{1, 2}, T: 1}}, SignAt: []int{1}, Seed: seed + 22, Leaver: true},
 		)
 		for k := uint64(0); k < 4; k++ { // more seeds = other digests, coordinators and link delays
 			scn = append(scn,
@@ -1061,7 +1185,14 @@ func scenarioKind(c Case) string {
 		t = c.T
 	}
 	flags := map[string]bool{}
+	anyAbandoned := false
+	realReshares := 0
 	for _, r := range c.Reshares {
+		if r.Abandon != "" {
+			anyAbandoned = true
+			continue
+		}
+		realReshares++
 		next := map[int]bool{}
 		for _, m := range r.Members {
 			next[m] = true
@@ -1089,7 +1220,7 @@ func scenarioKind(c Case) string {
 		}
 	}
 	if len(ops) == 0 {
-		if len(c.Reshares) > 0 {
+		if realReshares > 0 {
 			ops = []string{"same"}
 		} else {
 			ops = []string{"plain"}
@@ -1111,6 +1242,12 @@ func scenarioKind(c Case) string {
 	}
 	if c.Overlap {
 		mode = append(mode, "overlap")
+	}
+	if c.Leaver {
+		mode = append(mode, "leaver")
+	}
+	if anyAbandoned {
+		mode = append(mode, "abandon")
 	}
 	if len(mode) > 0 {
 		kind += "/" + strings.Join(mode, "-")
@@ -1152,6 +1289,6 @@ func main() {
 			}
 			return len(o.Stages) >= 2
 		},
-		Rule: "glue: both coordinator flags through the real processEndMessage; random committees of 1-9 well-formed peer ids (sha256- and identity-multihash) through PartiesFromPeers, sortParties (old subset, incl. non-subset and empty) and unmarshallStartParams/validateStartParams (holder / non-holder, perturbed subsets, thresholds -1..|sub|+1); scenarios: real in-process ECDSA and FROST runs from the fixture key shares (thorough: also from a real keygen) with join / leave / threshold change refreshes and every threshold+1 subset signing; signing sessions with the executors' result channels (unbuffered / capacity 1 / one FROST process per input sharing a channel of capacity = inputs) read by a parked, a late or an EVM-watchExecution-style reader, and sessions whose first attempt fails (CommunicationError on every signer's first key-sign broadcast, optionally a left-out member joining) and whose SAME process objects run again; processEndMessage with channel capacities 0/1/2/8 x parked/late reader; distinct = distinct input JSON; non-trivial = at least 2 peers (parties), a proper non-empty old subset (sortp), a non-empty subset (validate), a scenario with at least two observed stages",
+		Rule: "glue: both coordinator flags through the real processEndMessage; random committees of 1-9 well-formed peer ids (sha256- and identity-multihash) through PartiesFromPeers, sortParties (old subset, incl. non-subset and empty) and unmarshallStartParams/validateStartParams (holder / non-holder, perturbed subsets, thresholds -1..|sub|+1); scenarios: real in-process ECDSA and FROST runs from the fixture key shares (thorough: also from a real keygen) with join / leave / threshold change refreshes and every threshold+1 subset signing, every process of a relayer on ONE long-lived store object per protocol whose hand-outs are compared with the file after every stage (read twice, the first result modified); abandoned refreshes / key generations (Stop without Run, Run with a cancelled context, rejected start parameters) followed by signing; after a refresh with a leaving member extra sessions in which the ex-member is online with its old share and answers ready first; signing sessions with the executors' result channels (unbuffered / capacity 1 / one FROST process per input sharing a channel of capacity = inputs) read by a parked, a late or an EVM-watchExecution-style reader, and sessions whose first attempt fails (CommunicationError on every signer's first key-sign broadcast, optionally a left-out member joining) and whose SAME process objects run again; processEndMessage with channel capacities 0/1/2/8 x parked/late reader; distinct = distinct input JSON; non-trivial = at least 2 peers (parties), a proper non-empty old subset (sortp), a non-empty subset (validate), a scenario with at least two observed stages",
 	})
 }
